@@ -97,8 +97,11 @@ def mixture(
         return tuple((p, unitary(u)) for p, u in result)
 
     unitary_getter = getattr(val, '_unitary_', None)
-    result = NotImplemented if unitary_getter is None else unitary_getter()
-    if result is not NotImplemented:
+    # Use the unitary protocol (not only the `_unitary_` method) so that values whose unitary
+    # comes from `_apply_unitary_` or a decomposition, for which `has_mixture` answers True,
+    # also have a mixture.
+    result = unitary(val, None)
+    if result is not None:
         return ((1.0, result),)
 
     if default is not RaiseTypeErrorIfNotProvided:
